@@ -71,7 +71,10 @@ class WorkerRegistry(collections.UserDict[str, float | None]):
   def register(self, address: str, time_: float):
     """Register a new client."""
     with self._lock:
-      self.data[address] = time_
+      last_time = self.data.get(address)
+      # The heartbeat of a live worker only moves forward, a new or a dead one
+      # starts with the given time.
+      self.data[address] = time_ if last_time is None else max(last_time, time_)
     logging.info('chainable: %s', f'registering worker "{address}"')
 
   def unregister(self, address: str):
